@@ -77,6 +77,26 @@ pub fn scalar_value(x: f64) -> Value {
     Value::Quantity(crate::quantity::Quantity::from_scalar(x))
 }
 
+/// The static type of an expression statement, if it is a (closed) dimension type: its base
+/// representation as (base dimension, numerator, denominator) factors. `Some(Err(text))` for any
+/// other type, `None` if the statement is not an expression.
+pub fn static_dimension(
+    stmt: &crate::Statement,
+) -> Option<Result<Vec<(CompactString, i128, i128)>, String>> {
+    let crate::Statement::Expression(e) = stmt else {
+        return None;
+    };
+    let ty = e.get_type_scheme().to_concrete_type();
+    Some(match &ty {
+        crate::Type::Dimension(d) if ty.is_closed() => Ok(d
+            .to_base_representation()
+            .iter()
+            .map(|f| (f.0.clone(), *f.1.numer(), *f.1.denom()))
+            .collect()),
+        other => Err(other.to_string()),
+    })
+}
+
 /// Parse `code` with the real tokenizer + parser and render the *untyped* syntax
 /// tree as a canonical S-expression (spans dropped). Parse errors are returned as
 /// their display strings.
